@@ -682,6 +682,12 @@ func c15Bundles(r *Run, pool *Pool, st *c15Stats, prelude string) {
 			}
 			atomic.AddInt64(&st.execRuns, 1)
 			bad := ""
+			if v.splitting && fmt.Sprint(c15FileOrder(refTrace.Trace)) != fmt.Sprint(c15FileOrder(or.Trace)) {
+				// with code splitting modules of different chunks may be evaluated in another order than natively (a
+				// documented limitation of splitting, and a matter of C02/C18, not of names): nothing is decided here
+				r.Count("splitting_runs_skipped_module_order_differs", 1)
+				continue
+			}
 			if !sameTrace(refTrace.Trace, or.Trace) {
 				_, a, b := firstTraceDiff(refTrace.Trace, or.Trace)
 				bad = fmt.Sprintf("trace differs: native %s, bundle %s", trunc(a, 100), trunc(b, 100))
@@ -695,6 +701,17 @@ func c15Bundles(r *Run, pool *Pool, st *c15Stats, prelude string) {
 			}
 		}
 	})
+}
+
+// c15FileOrder lists the "file",k markers of a trace in the order in which they were logged
+func c15FileOrder(trace []string) []string {
+	var out []string
+	for _, ev := range trace {
+		if strings.HasPrefix(ev, "\"file\",") {
+			out = append(out, ev)
+		}
+	}
+	return out
 }
 
 func replayC15(r *Run, path string) {
